@@ -12,6 +12,7 @@
 
 enum Garbage { G_ZERO = 0, G_FF, G_RANDOM, G_STALE, G_NAN, G_A5, G_NUM };
 static const char *const kGarbageName[] = {"zero", "ff", "random", "stale", "nan", "a5"};
+static const int G_CLEAN_GROWTH = 0x100; // flag or-ed into a plan's garbage mode: see TaskCtx::clean_growth
 
 // "the k-th factor-growth request (malloc issued from [sdcz]expand) of this operation returns NULL";
 // persist: every later growth request of the operation fails too (memory really exhausted).
@@ -36,6 +37,7 @@ struct TaskCtx {
     // ---- environment ----
     int tuning[7] = {20, 10, 200, 200, 100, 30, 10};
     Garbage garbage = G_ZERO;
+    bool clean_growth = false;   // blocks obtained at the factor-growth sites ([sdcz]expand) are handed out zeroed whatever `garbage` says (KF1 policy)
     Rng grng{7};
     // ---- allocator / ledger ----
     std::unordered_map<void *, AllocRec> live;
